@@ -202,15 +202,14 @@ Definition rho (a : args) (x : C) : C := if a_single a then cround O x else x.
 
 Definition topN (l : list C) (nz : nat) : C := nth0 l (pred nz).
 
-(* levels-by-levels (P_l, Q_l) of a non-mean mode *)
-Definition mode_levels (a : args) (g : geom) (tx ty : nat) : list (C * C) :=
+(* levels-by-levels (P_l, Q_l) of a non-mean mode whose source amplitude is qh *)
+Definition mode_levels_q (a : args) (g : geom) (tx ty : nat) (qh : C) : list (C * C) :=
   let pr := a_prof a in
   let nz := g_nz g in
   let lx := wavenumber (g_dx g) (g_nxe g) (fftfreq (g_nlx g) tx) in
   let ly := wavenumber (g_dy g) (g_nye g) (fftfreq (g_nly g) ty) in
   let KzN := topN (p_Kz pr) nz in
   let eig := eigval (topN (p_Kx pr) nz) (topN (p_Ky pr) nz) (topN (p_u pr) nz) (topN (p_v pr) nz) KzN lx ly in
-  let qh := q0_hat a g tx ty in
   if a_analytic a then
     let Kzinv := 1 / KzN in
     map (fun l => let h := nth0 (a_z a) l - nth0 (a_z a) 0%nat in
@@ -224,18 +223,23 @@ Definition mode_levels (a : args) (g : geom) (tx ty : nat) : list (C * C) :=
     map (fun r => (rho a (al * fst (fst r) + fst (snd r)), rho a (al * snd (fst r) + snd (snd r))))
         (combine (combine rp1 rq1) (combine rp2 rq2)).
 
-(* mean mode (P_l, Q_l) *)
-Definition mean_levels (a : args) (g : geom) : list (C * C) :=
-  let q00 := q0_hat a g 0%nat 0%nat in
+Definition mode_levels (a : args) (g : geom) (tx ty : nat) : list (C * C) :=
+  mode_levels_q a g tx ty (q0_hat a g tx ty).
+
+(* mean mode (P_l, Q_l) for mean source amplitude q00 and background p000 *)
+Definition mean_levels_q (a : args) (g : geom) (q00 p000 : C) : list (C * C) :=
   let Q := rho a q00 in
   if a_analytic a then
     let Kzinv := 1 / topN (p_Kz (a_prof a)) (g_nz g) in
     map (fun l => let h := nth0 (a_z a) l - nth0 (a_z a) 0%nat in
-                  (rho a (a_p000 a - q00 * Kzinv * h), Q)) (a_levels a)
+                  (rho a (p000 - q00 * Kzinv * h), Q)) (a_levels a)
   else
-    let '(_, rec) := mean_loop q00 (diffs (a_z a)) (p_Kz (a_prof a)) 0%nat (a_levels a) (a_p000 a)
+    let '(_, rec) := mean_loop q00 (diffs (a_z a)) (p_Kz (a_prof a)) 0%nat (a_levels a) p000
                                (zeros (length (a_levels a))) in
     map (fun p => (rho a p, Q)) rec.
+
+Definition mean_levels (a : args) (g : geom) : list (C * C) :=
+  mean_levels_q a g (q0_hat a g 0%nat 0%nat) (a_p000 a).
 
 Definition spectrum (a : args) (g : geom) (tx ty : nat) : list (C * C) :=
   match tx, ty with 0%nat, 0%nat => mean_levels a g | _, _ => mode_levels a g tx ty end.
